@@ -12,6 +12,7 @@ import DuckModel.Sdk.OnError
 import DuckModel.Spec.ErrorProtocol
 import DuckModel.Spec.Machine
 import DuckModel.Lemmas.OnErrorLemmas
+import DuckModel.Props.C10Scripts
 
 namespace Duck
 open Duck.Spec Duck.OnError
